@@ -14,6 +14,7 @@ import Driver.Common
     update <alg> <off> <hex> -> ok | fault <site>
     finish <alg>             -> digest <hex> | fault <site>
     spec   <alg> <hex>       -> digest <hex>        (the specification, one-shot)
+    bump sha512_256 <count> <hi> <len> -> cnt <count'> <hi'>   (counter update only)
 -/
 open Mhd.Hash Driver
 
@@ -108,6 +109,16 @@ def stepLine (s : St) (ws : List String) : St × List String :=
     match bytesOfHex hex with
     | some d => (s, [s!"digest {hexOfBytes (Spec.Sha1.hash d)}"])
     | none => (s, ["bad-op"])
+  | ["bump", "sha512_256", c, h, l] =>
+    -- the counter update of `MHD_SHA512_256_update` alone (its wrap branch needs a single
+    -- update of ≥ 2^64 − 2^61 bytes and cannot be reached through the API)
+    match c.toNat?, h.toNat?, l.toNat? with
+    | some c, some h, some l =>
+      if c < 2 ^ 61 ∧ h < 2 ^ 64 ∧ l < 2 ^ 64 then
+        let r := Sha512.alg.bump c h l
+        (s, [s!"cnt {r.1} {r.2}"])
+      else (s, ["bad-op"])
+    | _, _, _ => (s, ["bad-op"])
   | _ => (s, ["bad-op"])
 
 def st0 : St :=
